@@ -360,7 +360,8 @@ func SetForInterfaceFromArray(list []interface{}) *SetForInterfaceDef {
 
 // SetForInterfaceFromMap New Set instance from a map[interface{}]R
 func SetForInterfaceFromMap(theMap map[interface{}]interface{}) *SetForInterfaceDef {
-	return SetForInterfaceFromArray(KeysForInterface(theMap))
+	result := SetForInterfaceDef(theMap)
+	return &result
 }
 
 // MapKey Map all keys of Set by function
@@ -418,7 +419,7 @@ func (setSelf *SetForInterfaceDef) Add(input ...interface{}) *SetForInterfaceDef
 			if _, ok := (*result)[v]; ok {
 				continue
 			}
-			(*result)[v] = true
+			(*result)[v] = *new(interface{})
 		}
 
 		return result
@@ -684,7 +685,7 @@ func (streamSetSelf *StreamSetForInterfaceDef) IsSubsetByKey(input *StreamSetFor
 // IsSupersetByKey TODO NOTE !!Duplicated!! returns true or false by checking if set1 is a superset of set2
 func (streamSetSelf *StreamSetForInterfaceDef) IsSupersetByKey(input *StreamSetForInterfaceDef) bool {
 	if input == nil || input.Size() == 0 {
-		return true
+		return false
 	}
 
 	return streamSetSelf.SetForInterfaceDef.IsSupersetByKey(&input.SetForInterfaceDef)
@@ -693,7 +694,7 @@ func (streamSetSelf *StreamSetForInterfaceDef) IsSupersetByKey(input *StreamSetF
 // Minus TODO NOTE !!Duplicated!! Get all of this StreamSetForInterface but not in the given StreamSetForInterface
 func (streamSetSelf *StreamSetForInterfaceDef) Minus(input *StreamSetForInterfaceDef) *StreamSetForInterfaceDef {
 	if input == nil || input.Size() == 0 {
-		return NewStreamSetForInterface()
+		return streamSetSelf
 	}
 
 	return &StreamSetForInterfaceDef{SetForInterfaceDef: *streamSetSelf.SetForInterfaceDef.Minus(&input.SetForInterfaceDef)}
